@@ -101,7 +101,7 @@ Section Agg.
       + destruct (dget (x mx s) nm' (hdr_key l i)) as [[z'|z'|t|]|]; cbn [fst x with_mx]; try exact H; rewrite dget_dset_other_dict; assumption.
     - cbn [fst x with_mx]. rewrite dget_dset_other_dict; [exact H|]. intros E. apply Hw. rewrite E. reflexivity.
     - cbn [fst x with_mx]. exact H.
-    - cbn [fst x with_mx]. exact H.
+    - destruct (none_like (nvalue blanks s l e)); cbn [fst x with_mx]; exact H.
     - cbn [fst x with_mx]. rewrite dget_dset_other_dict; [exact H|]. intros E. apply Hw. rewrite E. reflexivity.
     - cbn [fst x with_mx]. rewrite dget_dset_other_dict; [exact H|]. intros E. apply Hw. rewrite E. reflexivity.
     - destruct (is_blank_text (tally_text l i)); cbn [fst x with_mx]; [exact H|]. rewrite dget_dset_other_dict; [exact H|]. intros E. apply Hw. rewrite E. reflexivity.
@@ -228,13 +228,30 @@ Section Steps.
     split; [intros w Hw; cbn [vars dset]; apply lookup_update_other; exact Hw|reflexivity].
   Qed.
 
+  Lemma blank_parses_none t : is_blank_text t = true -> parse_int t = None.
+  Proof. unfold is_blank_text, parse_int. destruct (strip t); [reflexivity|discriminate]. Qed.
+
+  Lemma none_like_zero s l e : none_like (nvalue blanks s l e) = true -> fst (neval blanks s l e) = 0.
+  Proof.
+    destruct e as [z|i|a|a b|a b|a b|vn|t| | | | |vn key]; cbn [nvalue neval none_like fst]; try discriminate.
+    - destruct (cell l i) as [t|]; cbn [none_like]; [|reflexivity]. intros H. rewrite (blank_parses_none t H). reflexivity.
+    - destruct (lookup vn (vars (x mx s))) as [[z|z|t|]|]; cbn [none_like fst]; try discriminate; try reflexivity.
+      intros H. rewrite (blank_parses_none t H). reflexivity.
+    - destruct (match lookup vn (dicts (x mx s)) with Some d => ulookup key d | None => None end) as [[z|z|t|]|]; cbn [none_like fst]; try discriminate; try reflexivity.
+      intros H. rewrite (blank_parses_none t H). reflexivity.
+  Qed.
+
   Theorem sum_step s l nm e :
     let r := do_agg q blanks AND s l (Sum nm e) in
-    lookup nm (vars (x mx (fst r))) = Some (VF (num_of (lookup nm (vars (x mx s))) + fst (neval blanks s l e))) /\
+    num_of (lookup nm (vars (x mx (fst r)))) = num_of (lookup nm (vars (x mx s))) + fst (neval blanks s l e) /\
+    (none_like (nvalue blanks s l e) = false ->
+       lookup nm (vars (x mx (fst r))) = Some (VF (num_of (lookup nm (vars (x mx s))) + fst (neval blanks s l e)))) /\
     (forall v, nm <> v -> lookup v (vars (x mx (fst r))) = lookup v (vars (x mx s))).
   Proof.
-    cbn zeta. cbn [do_agg fst snd x with_mx vars dicts stacks]. split; [apply lookup_update_same|].
-    intros v Hv. apply lookup_update_other. exact Hv.
+    cbn zeta. cbn [do_agg]. destruct (none_like (nvalue blanks s l e)) eqn:En; cbn [fst snd x with_mx vars dicts stacks].
+    - rewrite lookup_update_same, (none_like_zero s l e En). split; [destruct (lookup nm (vars (x mx s))); cbn [num_of]; lia|].
+      split; [discriminate|]. intros v Hv. apply lookup_update_other. exact Hv.
+    - rewrite lookup_update_same. cbn [num_of]. split; [reflexivity|]. split; [reflexivity|]. intros v Hv. apply lookup_update_other. exact Hv.
   Qed.
 
   Theorem subtotal_step s l nm i e :
